@@ -236,6 +236,7 @@ pub fn le_u128(s: &[u8]) -> (r: std::result::Result<u128, std::array::TryFromSli
     ensures s.len() == 16 ==> r is Ok && r.unwrap() as nat == be_nat(s@.reverse()), s.len() != 16 ==> r is Err,
 { use std::convert::TryInto; Ok(u128::from_le_bytes(s.try_into()?)) }
 pub assume_specification [<u16 as std::convert::From<bool>>::from] (b: bool) -> (r: u16) ensures r == (if b { 1u16 } else { 0u16 });
+pub assume_specification [<usize as std::convert::From<bool>>::from] (b: bool) -> (r: usize) ensures r == (if b { 1usize } else { 0usize });
 pub assume_specification [<i32 as std::convert::From<u16>>::from] (x: u16) -> (r: i32) ensures r == x as i32;
 pub assume_specification [u8::from_be] (x: u8) -> (r: u8) ensures r == x;
 pub assume_specification [u8::to_be] (x: u8) -> (r: u8) ensures r == x;
@@ -351,6 +352,52 @@ pub open spec fn inplace_len(data: Seq<u8>, p: int) -> int
     }
 }
 
+/// whatever the RFC decoder yields is a name within the RFC limits (labels 1..63, at most 255 octets on the wire)
+pub proof fn lemma_dec_labels_ok(data: Seq<u8>, p: int, size: int)
+    requires dec_labels(data, p, size) is Some
+    ensures labels_ok(dec_labels(data, p, size).unwrap()), size + wl(dec_labels(data, p, size).unwrap()) <= 254, wl(dec_labels(data, p, size).unwrap()) >= 0
+    decreases 255 - size, p
+{
+    let b = data[p];
+    if b == 0 {
+        assert(wl(Seq::<Seq<u8>>::empty()) == 0);
+    } else if b & 0xC0 == 0xC0 {
+        lemma_dec_labels_ok(data, ptr_target(data[p], data[p + 1]), size);
+    } else {
+        lemma_dec_labels_ok(data, p + 1 + b, size + 1 + b);
+        let rest = dec_labels(data, p + 1 + b, size + 1 + b).unwrap();
+        let lab = data.subrange(p + 1, p + 1 + b);
+        let ls = seq![lab] + rest;
+        assert(ls[0] == lab);
+        assert(ls.subrange(1, ls.len() as int) =~= rest);
+        assert forall|i: int| 0 <= i < ls.len() implies 1 <= #[trigger] ls[i].len() <= 63 by {
+            if i > 0 { assert(ls[i] == rest[i - 1]); }
+        }
+    }
+}
+pub proof fn lemma_name_dec_ok(data: Seq<u8>, p: int, lv: Seq<Seq<u8>>)
+    requires dec_labels(data, p, 0) == Some(lv)
+    ensures name_ok(lv)
+{ lemma_dec_labels_ok(data, p, 0); }
+
+/// a name that decodes occupies in-place bytes inside the message
+pub proof fn lemma_inplace_bound(data: Seq<u8>, p: int, size: int)
+    requires dec_labels(data, p, size) is Some
+    ensures 1 <= inplace_len(data, p), p + inplace_len(data, p) <= data.len()
+    decreases data.len() - p
+{
+    let b = data[p];
+    if b != 0 && !(b & 0xC0 == 0xC0) { lemma_inplace_bound(data, p + 1 + b, size + 1 + b); }
+}
+pub proof fn lemma_inplace_nonneg(data: Seq<u8>, p: int)
+    ensures inplace_len(data, p) >= 0
+    decreases data.len() - p
+{
+    if !(p < 0 || p >= data.len()) {
+        let b = data[p];
+        if b != 0 && !(b & 0xC0 == 0xC0) && !(p + 1 + b > data.len()) { lemma_inplace_nonneg(data, p + 1 + b); }
+    }
+}
 pub open spec fn prepend(ls: Seq<Seq<u8>>, rest: Option<Seq<Seq<u8>>>) -> Option<Seq<Seq<u8>>> {
     match rest { None => None, Some(r) => Some(ls + r) }
 }
@@ -698,6 +745,20 @@ pub proof fn lemma_tlv16_len_mono(items: Seq<(u16, Seq<u8>)>, i: int)
 {
     if i < items.len() { lemma_tlv16_len_step(items, i); lemma_tlv16_len_mono(items, i + 1); }
     else { assert(items.subrange(0, i) =~= items); }
+}
+pub proof fn lemma_tlv16_dec_len(data: Seq<u8>, q0: int, items: Seq<(u16, Seq<u8>)>, q: int)
+    requires tlv16(data, q0, items, q)
+    ensures tlv16_enc(items).len() == q - q0, tlv16_ok(items)
+    decreases items.len()
+{
+    if items.len() > 0 {
+        let it = items.last();
+        lemma_tlv16_dec_len(data, q0, items.drop_last(), q - 4 - it.1.len());
+        lemma_enc_be_len(it.0 as nat, 2); lemma_enc_be_len(it.1.len() as u16 as nat, 2);
+        assert forall|i: int| 0 <= i < items.len() implies (#[trigger] items[i]).1.len() <= 65535 by {
+            if i < items.len() - 1 { assert(items[i] == items.drop_last()[i]); }
+        }
+    }
 }
 pub proof fn lemma_tlv16_rt(pre: Seq<u8>, items: Seq<(u16, Seq<u8>)>)
     requires tlv16_ok(items)
